@@ -409,6 +409,52 @@ func ExploreScenario(seed int64, p Profile, x *Explorer) {
 			x.Run.Do(gw.Action{A: "frame", C: A.Label, Text: fmt.Sprintf(`{"id":%d,"method":"unsubscribe.%s","params":{"count":%d}}`, x.nextID[A.Label], name(X), cnt)})
 			x.settle()
 		}
+	case "disc":
+		// a client leaves at an arbitrary point of a few requests in progress: with answers outstanding, with tasks queued
+		// behind the close, with a second client sharing the resources; late answers arrive afterwards
+		cls := x.Run.W.Clients
+		if x.R.Intn(2) == 0 {
+			x.tokenEvent(A, 1, true)
+		}
+		for k := 1 + x.R.Intn(3); k > 0; k-- {
+			n := x.R.Intn(p.Resources)
+			switch x.R.Intn(6) {
+			case 0:
+				x.sendFrame(A, "get", n, "")
+			case 1:
+				x.sendFrame(A, "call", n, "set")
+			case 2:
+				x.sendFrame(B, "subscribe", n, "")
+			default:
+				x.sendFrame(A, "subscribe", n, "")
+			}
+			x.internalSteps(x.R.Intn(5))
+		}
+		switch x.R.Intn(4) {
+		case 0:
+			x.settle()
+		case 1:
+			x.sysReset(x.R.Pick("access", "both"), "test.>")
+			x.internalSteps(x.R.Intn(4))
+		case 2:
+			x.tokenResetEvent()
+		}
+		cClosed(x.Run, A)
+		x.Run.Do(gw.Action{A: "disconnect", C: A.Label})
+		closed[x.Run][A.Label] = true
+		// what is still outstanding is answered in any order relative to the close being carried out
+		x.internalSteps(x.R.Intn(6))
+		if x.R.Intn(3) == 0 {
+			x.changeEvent(x.R.Intn(p.Resources))
+		}
+		if x.R.Intn(4) == 0 {
+			x.sysReset("access", "test.>")
+		}
+		x.settle()
+		if len(cls) > 1 && x.R.Intn(2) == 0 {
+			x.sendFrame(B, "subscribe", x.R.Intn(p.Resources), "")
+			x.settle()
+		}
 	case "thr":
 		// every client holds a few resources; then a system reset whose governed requests (re-fetches, re-access checks)
 		// exceed the throttle, disturbed while they wait: a client leaves, unsubscribes, a second reset arrives
@@ -449,6 +495,9 @@ func ExploreScenario(seed int64, p Profile, x *Explorer) {
 	x.slowR = -1
 	x.internalSteps(-1)
 	x.quiesce("final")
+	if p.Endgame {
+		x.endgame()
+	}
 }
 
 // sysReset announces a system reset; for resources it first changes one matched resource silently.
